@@ -640,6 +640,49 @@ func (ex *Exec) loopEnv(fr *Frame, li *loopInfo, st *State) map[string]CV {
 				avail = append(avail, v)
 			}
 		}
+		if li != nil && len(avail) > 1 {
+			// a variable assigned more than once before the loop: the definition every other one dominates
+			var last ssa.Value
+			for _, v := range avail {
+				vi, ok := v.(ssa.Instruction)
+				if !ok {
+					continue
+				}
+				isLast := true
+				for _, u := range avail {
+					if u == v {
+						continue
+					}
+					ui, ok := u.(ssa.Instruction)
+					if !ok {
+						continue // parameters and constants come first
+					}
+					if ui.Block() == vi.Block() {
+						for _, in := range vi.Block().Instrs {
+							if in == ui {
+								break
+							}
+							if in == vi {
+								isLast = false
+								break
+							}
+						}
+					} else if !ui.Block().Dominates(vi.Block()) {
+						isLast = false
+					}
+				}
+				if isLast {
+					if last != nil {
+						last = nil
+						break
+					}
+					last = v
+				}
+			}
+			if last != nil {
+				avail = []ssa.Value{last}
+			}
+		}
 		if li == nil && len(avail) > 1 {
 			// inside loops: the loop-carried variable of that name of the innermost active loop
 			var phis []ssa.Value
@@ -869,9 +912,18 @@ func (ex *Exec) execInstrs(fr *Frame, b *ssa.BasicBlock, i int, st *State) {
 			ex.doMakeClosure(fr, st, x)
 		case *ssa.Call:
 			ex.ghostBefore(fr, st, x)
+			var preCall *State
+			if fr.block != nil {
+				for _, c := range fr.block.Clauses {
+					if c.Kind == "after" {
+						preCall = st.clone()
+						break
+					}
+				}
+			}
 			ex.doCall(fr, st, x, x.Common(), func(st2 *State, res SVal) {
 				st2.vals[x] = res
-				ex.ghostAsserts(fr, st2, x)
+				ex.ghostAsserts(fr, st2, x, preCall)
 				ex.execInstrs(fr, b, i+1, st2)
 			})
 			return
@@ -1538,7 +1590,7 @@ func (ex *Exec) ghostBefore(fr *Frame, st *State, call *ssa.Call) {
 }
 
 // ghostAsserts: `after <site> assert e` clauses: proved at that point, then assumed (proof stepping stones).
-func (ex *Exec) ghostAsserts(fr *Frame, st *State, call *ssa.Call) {
+func (ex *Exec) ghostAsserts(fr *Frame, st *State, call *ssa.Call, preCall *State) {
 	if fr.block == nil {
 		return
 	}
@@ -1554,7 +1606,18 @@ func (ex *Exec) ghostAsserts(fr *Frame, st *State, call *ssa.Call) {
 			continue
 		}
 		c.hit = true
-		ctx := &EvalCtx{ex: ex, st: st, old: fr.pre, env: ex.loopEnv(fr, nil, st)}
+		env := ex.loopEnv(fr, nil, st)
+		if preCall != nil {
+			for i, a := range call.Call.Args {
+				if sv, ok := preCall.vals[a]; ok && sv.Loc == nil && sv.Tup == nil {
+					env[fmt.Sprintf("arg%d", i)] = CV{T: sv.T, Sort: ex.w.sortOf(a.Type()), Type: a.Type()}
+				}
+			}
+		}
+		if sv, ok := st.vals[call]; ok && sv.Loc == nil && sv.Tup == nil && sv.T != "" {
+			env["result"] = CV{T: sv.T, Sort: ex.w.sortOf(call.Type()), Type: call.Type()}
+		}
+		ctx := &EvalCtx{ex: ex, st: st, old: fr.pre, atCall: preCall, env: env}
 		t, err := ctx.evalBool(c.E)
 		if err != nil {
 			ex.errorf("%s: after %s assert: %v", fnName(fr.fn), site, err)
